@@ -115,6 +115,12 @@ func (fx *FuncCtx) libraryModel(st *State, callee *types.Func, qn string, recv V
 				if v, ok := floatLitValue(argT(0)); ok {
 					return fx.floatConst(math.Sqrt(v), SF64), true
 				}
+				if fx.ieee && fx.con != nil && fx.con.Options["nan-axioms"] == "true" {
+					// uninterpreted, with the IEEE facts about sign and NaN of a square root
+					fx.declFun("fsqrt64", []Sort{SF64}, SF64)
+					fx.declare("(assert (forall ((a F64)) (! (and (= (fp.isNaN (fsqrt64 a)) (or (fp.isNaN a) (fp.lt a (_ +zero 11 53)))) (=> (fp.gt a (_ +zero 11 53)) (fp.gt (fsqrt64 a) (_ +zero 11 53))) (=> (fp.isZero a) (fp.isZero (fsqrt64 a)))) :pattern ((fsqrt64 a)))))")
+					return app(SF64, "fsqrt64", argT(0)), true
+				}
 			}
 			if fx.real {
 				a := argT(0)
